@@ -3,5 +3,6 @@ NEXT TNext
 INVARIANT InvFixedPoint
 INVARIANT InvSelfHosting
 INVARIANT InvSameLanguage
+INVARIANT InvDeterministic
 POSTCONDITION TraceAccepted
 CHECK_DEADLOCK FALSE
